@@ -505,6 +505,8 @@ fn main() {
     let only: Option<usize> = args.iter().position(|a| a == "--only").map(|p| args[p + 1].parse().unwrap());
     // --structure: compare outcome category, error identity, timestamp, twins and purity, not the numbers
     let structure_only = args.iter().any(|a| a == "--structure");
+    // --skip-ewma-values: the build's power function is an approximation (micromath): EWMA numbers are not compared
+    let skip_ewma = args.iter().any(|a| a == "--skip-ewma-values");
     let mut rep = Report::new();
     let mut seen = std::collections::HashSet::new();
     for (ln, l) in lines.iter().enumerate() {
@@ -537,7 +539,7 @@ fn main() {
             if matches!(s(&beh, "kind"), "EWMA" | "EWMAQ") && c.tick_pow2 != 0 {
                 continue;
             }
-            replay(&beh, ln, c, &mut rep, structure_only);
+            replay(&beh, ln, c, &mut rep, structure_only || (skip_ewma && matches!(s(&beh, "kind"), "EWMA" | "EWMAQ")));
         }
     }
     rep.finish();
